@@ -58,6 +58,10 @@ def cases(tier, seed):
             for k in spec["factors"]["Tr"]["table"]:
                 spec["factors"]["Tr"]["table"][k] %= 2
         names = list(spec["order"])
+        if comb in ("repeat", "repeat_preamble") and rng.random() < 0.35:
+            # a weighted level of a factor outside the crossing: the block desugars it (hidden factor), and a
+            # constraint on that level is rebuilt for the desugared factor
+            spec["factors"]["B"]["levels"][rng.randrange(2)][1] = 2
         if comb == "repeat":
             base = cross(names, ["A"], [])
             TB, p = len(spec["factors"]["A"]["levels"]), 0
